@@ -1189,6 +1189,104 @@ def _fold_strings(e):
     return F().visit(e)
 
 
+class _AttrConstInline(ast.NodeTransformer):
+    """`_Enum.MEMBER.value`, `_HOLDER.field` -> the constant"""
+    def __init__(self, table, env=None):
+        self.table = dict(table)
+        self.env = env or {}
+
+    def visit_FunctionDef(self, node):
+        # a local bound once to a constant holder: `fem = _FEM`
+        holders = {k.split(".")[0] for k in self.table if k.count(".") == 1}
+        added = []
+        for st in node.body:
+            if isinstance(st, ast.Assign) and len(st.targets) == 1 and \
+                    isinstance(st.targets[0], ast.Name) and isinstance(
+                        st.value, ast.Name) and st.value.id in holders:
+                alias = st.targets[0].id
+                stores = [n for n in ast.walk(node) if isinstance(
+                    n, ast.Name) and n.id == alias and isinstance(
+                    n.ctx, ast.Store)]
+                if len(stores) == 1:
+                    for k, v in list(self.table.items()):
+                        if k.startswith(st.value.id + ".") and \
+                                k.count(".") == 1:
+                            nk = alias + "." + k.split(".", 1)[1]
+                            if nk not in self.table:
+                                self.table[nk] = v
+                                added.append(nk)
+        self.generic_visit(node)
+        for k in added:
+            self.table.pop(k, None)
+        # an alias nobody reads any more is dropped
+        for alias in {k.split(".")[0] for k in added}:
+            if not any(isinstance(n, ast.Name) and n.id == alias
+                       and isinstance(n.ctx, ast.Load)
+                       for n in ast.walk(node)):
+                node.body = [st for st in node.body if not (
+                    isinstance(st, ast.Assign) and len(st.targets) == 1
+                    and isinstance(st.targets[0], ast.Name)
+                    and st.targets[0].id == alias)] or [ast.Pass()]
+        return node
+
+    def _static(self, node):
+        """a comprehension / conversion over static module data"""
+        if not self.env:
+            return node
+        from . import staticeval as se
+        names = {n.id for n in ast.walk(node) if isinstance(n, ast.Name)}
+        bound = {t for g in ast.walk(node) if isinstance(g, ast.comprehension)
+                 for t in target_names(g.target)}
+        free = names - bound - {"list", "tuple", "sorted", "dict", "zip",
+                                "map", "len", "str"}
+        if not free or not free <= set(self.env):
+            return node
+        if not any(isinstance(self.env.get(n), (se._Enum, se._Holder))
+                   or n.startswith("_") for n in free):
+            return node
+        try:
+            v = se._ev(node, self.env)
+        except (se._No, RecursionError):
+            return node
+        if not se._is_data(v) or isinstance(v, se._AstConst):
+            return node
+        new = se._literal(v)
+        new._from_const = "static"
+        return ast.copy_location(new, node)
+
+    def visit_ListComp(self, node):
+        new = self._static(node)
+        if new is not node:
+            return new
+        self.generic_visit(node)
+        return node
+
+    visit_GeneratorExp = visit_ListComp
+
+    def visit_Call(self, node):
+        if isinstance(node.func, ast.Attribute) and isinstance(
+                node.func.value, ast.Name) and node.func.value.id in \
+                self.env and not node.args and not node.keywords:
+            new = self._static(node)
+            if new is not node:
+                return new
+        self.generic_visit(node)
+        return node
+
+    def visit_Attribute(self, node):
+        if isinstance(node.ctx, ast.Load):
+            try:
+                txt = ast.unparse(node)
+            except Exception:
+                txt = None
+            if txt in self.table:
+                new = clone(self.table[txt])
+                new._from_const = txt
+                return ast.copy_location(new, node)
+        self.generic_visit(node)
+        return node
+
+
 class _ConstInline(ast.NodeTransformer):
     def __init__(self, scal):
         self.scal = scal
@@ -1765,6 +1863,9 @@ def _restore_anchor_names(tree):
                     n.attr = canon
 
 
+_VALUE_METHODS = {}
+
+
 def _namedtuples(tree):
     """module-level `T = namedtuple("T", "a b c" | [..])` -> {T: fields}"""
     out = {}
@@ -1783,6 +1884,40 @@ def _namedtuples(tree):
                 fields = [e.value for e in f.elts]
             if fields:
                 out[st.targets[0].id] = fields
+        # class syntax: typing.NamedTuple / a private dataclass whose body
+        # only declares fields (no defaults needed for scalarisation)
+        if isinstance(st, ast.ClassDef) and st.name.startswith("_"):
+            is_nt = any(norm(b).split(".")[-1] == "NamedTuple"
+                        for b in st.bases)
+            is_dc = any(norm(d.func if isinstance(d, ast.Call) else d
+                             ).split(".")[-1] == "dataclass"
+                        for d in st.decorator_list)
+            if not (is_nt or is_dc):
+                continue
+            fields = []
+            methods = {}
+            ok = True
+            for b in st.body:
+                if isinstance(b, ast.AnnAssign) and isinstance(
+                        b.target, ast.Name):
+                    fields.append(b.target.id)
+                elif isinstance(b, ast.Expr) and isinstance(b.value,
+                                                            ast.Constant):
+                    continue
+                elif isinstance(b, ast.Pass):
+                    continue
+                elif isinstance(b, ast.FunctionDef) and not b.decorator_list \
+                        and b.args.args and not b.args.vararg and \
+                        not b.args.kwarg and not b.args.defaults and \
+                        _single_expr(b) is not None:
+                    # a pure accessor/converter: `return <expr over self>`
+                    methods[b.name] = b
+                else:
+                    ok = False      # anything else: keep the object
+            if ok and fields:
+                out[st.name] = fields
+                if methods:
+                    _VALUE_METHODS[st.name] = methods
     return out
 
 
@@ -1803,6 +1938,27 @@ def _scalarise_records(fn, types):
                             st.value.func.id in types:
                         cands.setdefault(st.targets[0].id, []).append(st)
                         holder[id(st)] = (par, fld)
+    # method calls of value objects -> the method's expression
+    for name, sts in cands.items():
+        if len(sts) != 1:
+            continue
+        meths = _VALUE_METHODS.get(sts[0].value.func.id)
+        if not meths:
+            continue
+        for c in [n for n in ast.walk(fn) if isinstance(n, ast.Call)
+                  and isinstance(n.func, ast.Attribute)
+                  and isinstance(n.func.value, ast.Name)
+                  and n.func.value.id == name and n.func.attr in meths]:
+            m = meths[c.func.attr]
+            params = [a.arg for a in m.args.args]
+            if c.keywords or len(c.args) != len(params) - 1:
+                continue
+            mapping = dict(zip(params[1:], c.args))
+            mapping[params[0]] = ast.Name(id=name, ctx=ast.Load())
+            expr = _Subst(mapping, {}).visit(clone(_single_expr(m)))
+            ast.copy_location(expr, c)
+            ast.fix_missing_locations(expr)
+            _replace_node(fn, c, expr)
     for name, sts in cands.items():
         if len(sts) != 1:
             continue
@@ -1915,6 +2071,15 @@ def _self_aliases(fn):
 
 
 def normalize_module(tree: ast.Module, extern=None) -> ast.Module:
+    from . import normalize2 as _n2
+    tree = _n2.MatchToIf().visit(tree)
+    ast.fix_missing_locations(tree)
+    from . import staticeval
+    attr_consts = staticeval.fold_module_tables(tree)
+    if attr_consts:
+        tree = _AttrConstInline(attr_consts, getattr(
+            tree, "_static_env", None)).visit(tree)
+        ast.fix_missing_locations(tree)
     scal, coll = module_constants(tree)
     if extern:
         # constants imported from a sibling module (unless re-bound here)
@@ -1936,6 +2101,8 @@ def normalize_module(tree: ast.Module, extern=None) -> ast.Module:
             n2.counted_while(n)
             n2.single_use_dicts(n)
             n2.flag_finally(n)
+            n2.exitstack_rollback(n)
+            n2.sink_selected_calls(n)
             n2.local_sorts(n)
     for _round in range(2):
         before = ast.dump(tree) if _round else None
